@@ -56,6 +56,13 @@ KINDS = {
     "maildir-message": "/md|/MAILDIR-MESSAGE/1",
     "zip-listing": "/arc.zip/d",
     "zip-member": "/arc.zip/d/b.txt",
+    "zip-html-a": "/arc.zip/web/a.html",
+    "zip-html-b": "/arc.zip/web/b.html",
+    "zip-web-listing": "/arc.zip/web",
+    "maildir-message-2": "/md|/MAILDIR-MESSAGE/2",
+    "mbox-message-1": "/mail.mbox|/MBOX-MESSAGE/1",
+    "zip-exec-member": "/arc.zip/bin/tool.sh",
+    "zip-pyg-member": "/arc.zip/bin/run.pyg",
     "zip2-member": "/arc2.zip/nope/x",
     "zip2-listing": "/arc2.zip",
     "script": "/script.sh",
@@ -106,7 +113,11 @@ def make_spec(bigsize=9000, nmsg=3, ndocs=4):
         {"p": "md", "k": "maildir", "n": 2},
         {"p": "arc.zip", "k": "zip", "members": [["a.txt", "zip a\n"], ["d/", ""],
                                                   ["d/b.txt", {"rep": ["zip member line\n", 400]}],
-                                                  ["d/c.txt", "c\n"]]},
+                                                  ["d/c.txt", "c\n"],
+                                                  ["web/a.html", "<html><head><title>Page A</title></head></html>\n"],
+                                                  ["web/b.html", "<html><head><title>Page B</title></head></html>\n"],
+                                                  ["bin/tool.sh", "#!/bin/sh\necho tool inside the archive\n", 0o755],
+                                                  ["bin/run.pyg", PYG, 0o755]]},
         {"p": "arc2.zip", "k": "zip", "members": [["nope/x", "in the second archive\n"], ["d/only2.txt", "2\n"],
                                                    ["a.txt", "another a\n"]]},
         {"p": "script.sh", "k": "file", "d": "#!/bin/sh\necho hello from script\necho \"query=$SEARCHREQUEST\"\n", "x": True},
@@ -241,8 +252,7 @@ def execute(sc, tape=None):
             else:
                 # classes already logged by the fault-free run of the same request are
                 # not consequences of the injected failure (they are C03's business)
-                others = [r for r in recs if r[1] not in ("FileNotFound", want_cls)
-                          and r[1] not in base_classes]
+                others = [r for r in recs if r[1] != want_cls and r[1] not in base_classes]
                 mine = [l for l in run.log if "10.9.8.7" in l and want_cls in l]
                 if others:
                     viol = {"oracle": "logged-under-own-class",
